@@ -991,6 +991,14 @@ class Executor:
             return VCallable(f"method:dict.{attr}", bound=o)
         if isinstance(o, VStr):
             return VCallable(f"method:str.{attr}", bound=o)
+        if o.__class__.__name__ == "VCtx":
+            from . import lib as _lib
+
+            if attr in _lib.child and attr != "formula":
+                return _lib.VCtx(_lib.child[attr](o.t))
+            if attr == "text":
+                return VStr(_lib.tok_text(o.t))
+            return VCallable(f"method:Ctx.{attr}", bound=o)
         if isinstance(o, VOptional):
             # attribute access on Optional: must not be None
             self.oblige("noraise.attr_on_none", node, z3.Not(o.isnone))
